@@ -4,13 +4,13 @@ Closure checker written against the VLSIR schema only, plus acceptance by from_p
 vlsirtools spice / spectre netlisters, over generated designs, the repository's examples and
 built-in generators over their parameter ranges, and PDK-compiled designs."""
 import time
-from .. import env, core, par, gen, design, corpus, pkgcheck
+from .. import env, core, par, gen, design, corpus, pkgcheck, model
 
 PID = "C06"
 LEVEL = "exploration"
 RULE = ("Packages from (1) Hypothesis-generated designs (C01 generator, all features), (2) the examples (rdac.rladder, "
         "rdac.mux_tree, encoder, ro, idac, diff_ota, bundles, mos_sim) and hdl21.generators (Series, MosStack, CmDmGen, Balun) "
-        "over their parameter ranges, (3) sample-PDK / Sky130 / GF180 / ASAP7 compiled designs. Each package is checked for: "
+        "over their parameter ranges, (3) sample-PDK / Sky130 / GF180 / ASAP7 compiled designs, (4) adversarially named designs, (5) whatever to_proto returns for ill-formed designs from C02's fault planter (nearly all are refused). Each package is checked for: "
         "unique module names, definition before use, unique signal/port/instance names, ports naming declared signals, every "
         "instance target resolvable (local / declared external / vlsir.primitives / hdl21.primitives), port set connected exactly "
         "once, targets naming declared signals within their widths with the port's width; then from_proto and the vlsirtools "
@@ -29,6 +29,27 @@ def eval_design(spec):
         return {"status": "reject", "sig": design.exc_bucket(e)}
     fails = pkgcheck.check_package(pkg)
     return {"status": "ok", "fails": fails, "feats": sorted(pkgcheck.pkg_features(pkg)),
+            "hash": env.canon_hash(pkg.SerializeToString(deterministic=True).hex())}
+
+
+def eval_faulty(mspec):
+    """An ill-formed design (C02's fault planter): if to_proto returns a package for it nevertheless, that package is one
+    'a successful to_proto call returns' and must be closed like any other."""
+    env.setup_paths()
+    import hdl21 as h
+    from ..build import Builder
+    from . import c02
+    try:
+        b = Builder(mspec)
+        top = b.module(mspec["top"])
+        c02.apply_cycle(b, mspec)
+        pkg = h.to_proto(top)
+    except RecursionError:
+        return {"status": "reject", "sig": "RecursionError"}
+    except Exception as e:
+        return {"status": "reject", "sig": "ill_formed_design_refused"}
+    fails = [("ill_formed_design:" + sig, detail) for sig, detail in pkgcheck.check_package(pkg)]
+    return {"status": "ok", "fails": fails, "feats": sorted(pkgcheck.pkg_features(pkg)) + ["package_from_ill_formed_design"],
             "hash": env.canon_hash(pkg.SerializeToString(deterministic=True).hex())}
 
 
@@ -109,6 +130,41 @@ def shard(idx, n, tier):
 
     run()
 
+    # (5) ill-formed designs: C02's fault planter; most are refused (counted), any package returned must be closed
+    from . import c02
+    nbase = max(1, nex // 60)
+
+    @hypothesis.seed(env.subseed(PID, "faulty", idx))
+    @settings(max_examples=nbase, database=None, deadline=None, derandomize=False,
+              suppress_health_check=list(HealthCheck), phases=[Phase.generate], report_multiple_bugs=False)
+    @given(gen.designs(gen.Opts(max_modules=3, max_insts=3, wide=False)))
+    def run_faulty(spec):
+        try:
+            model.flatten(spec)
+        except Exception:
+            return
+        ms = list(c02.mutants(spec))
+        step = max(1, len(ms) // 40)
+        for cls, site, mspec in ms[::step][:40]:
+            try:
+                model.flatten(mspec)
+                continue  # not ill-formed after all
+            except model.ModelError:
+                pass
+            except RecursionError:
+                pass
+            v = par.pristine(eval_faulty, mspec)
+            if par.is_exc(v):
+                res.harness_error("faulty design: %s %s %s" % (v[1], v[2], v[3][-600:]))
+                continue
+            res.notes["ill_formed_designs_tried"] += 1
+            if v["status"] == "reject":
+                res.notes["ill_formed_designs_refused"] += 1
+                continue
+            record(res, {"fault": cls, "site": site, "design": mspec}, v, "ill_formed")
+
+    run_faulty()
+
     # designs whose designer-chosen names collide with the names elaboration invents (generator shared with C05):
     # whatever package comes out of them must be closed as well
     from . import c05
@@ -139,7 +195,9 @@ def shard(idx, n, tier):
 
 
 def replay(case):
-    if "design" in case:
+    if "fault" in case:
+        v = par.in_child(eval_faulty, case["design"])
+    elif "design" in case:
         v = par.in_child(eval_design, case["design"])
     elif "corpus" in case:
         names = [nm for nm, _ in corpus.items("thorough")]
